@@ -269,6 +269,9 @@ class AdapterModel:
     def _opt_probe(self, lab):
         """The switched value is Option::as_pin_mut of the stream field ("stream") or an Option probe of a follower field."""
         e = strip_refs(lab[1])
+        if e[0] == "call" and re.search(r"core::ops::Try>?::branch$", e[1] or "") and e[2]:
+            # `stream.as_mut().as_pin_mut()?`: Break = absent, Continue = present
+            e = strip_refs(e[2][0])
         if e[0] == "call" and re.search(r"Option::<.*>::as_pin_mut$", e[1] or ""):
             return "stream"
         if e[0] == "call" and re.search(r"Option::<.*>::(as_mut|as_ref|as_deref_mut|as_deref)$", e[1] or "") and e[2]:
@@ -343,11 +346,11 @@ class AdapterModel:
                             (self._opt_probe(lab) if lab[0] in ("variant", "notvariants") else None)
                         if probe is None:
                             continue
-                        if lab[0] in ("variant",) and lab[2] == "None":
+                        if lab[0] in ("variant",) and lab[2] in ("None", "Break"):
                             ev.append(("ABSENT", bb))
-                        if lab[0] == "notvariants" and "Some" in lab[2]:
+                        if lab[0] == "notvariants" and ("Some" in lab[2] or "Continue" in lab[2]):
                             ev.append(("ABSENT", bb))
-                        if (lab[0] == "variant" and lab[2] == "Some" or lab[0] == "notvariants" and "None" in lab[2]) \
+                        if (lab[0] == "variant" and lab[2] in ("Some", "Continue") or lab[0] == "notvariants" and ("None" in lab[2] or "Break" in lab[2])) \
                                 and probe == "stream":
                             ev.append(("PRESENT", bb))
             if bb in self.up_sites:
